@@ -20,6 +20,10 @@ def check(ctx):
     ctx.guard(r0813_callable, ctx)
     ctx.guard(r0810_linprog, ctx)
     ctx.guard(r0811_setup, ctx)
+    ctx.rule("R08.14", "the constraint vector the guarantee is stated for is the documented one: eps / ratio case table and constructor "
+                       "defaults of the parity moments (shared with C06 R06.2)")
+    from .c06 import utility_parity_ctor_table
+    ctx.guard(utility_parity_ctor_table, ctx, "R08.14")
 
 def _peel(o):
     """(series, accessor) of the target of  series.at[k] = v / series.loc[k] = v / series[k] = v"""
@@ -366,7 +370,7 @@ def _shared_c08(ctx):
     from .c12 import label_sinks
     from .c19 import lifecycle_of
     ctx.rule("R08.5", "fit does not depend on state left by an earlier fit and prediction writes no state (shared with C19 R19.3 / R19.4)")
-    lifecycle_of(ctx, [EG], {"R19.3": "R08.5", "R19.4": "R08.5", "R19.6": "R08.5"})
+    lifecycle_of(ctx, [EG], {"R19.3": "R08.5", "R19.4": "R08.5", "R19.6": "R08.5", "R19.8": "R08.5"})
     ctx.rule("R08.6", "no caller-labelled pandas value reaches a label-aligning operation on the paths of this property (shared with C12 R12.1)")
     label_sinks(ctx, "R08.6", [(EG + ".fit", EG)])
 
